@@ -91,7 +91,7 @@ def Editor.chars (ed : Editor α) (start end_ : Int) : R (Editor α) :=
   let start := if start == Gen.endSentinel then n else start
   let end_ := if end_ == Gen.endSentinel then n else end_
   let (st, en) := rangeToIndexes n start end_
-  if st ≥ n then ed.subEd cx st en
+  if st ≥ n then ed.subEd cx (byteLen cx ed.text) (byteLen cx ed.text)
   else
     let runeStart := (clusterSpan e st.toNat).1
     let byteStart := byteOff cx ed.text runeStart
